@@ -15,7 +15,8 @@ from harness.trace import Recorder, _tls, install_patches, pkey, task_class
 PROP = "C11"
 THEOREMS = ["Lbfgsb.C11.ls_points_in_box", "Lbfgsb.C11.ls_evals_le_cap", "Lbfgsb.C11.ls_result_downhill",
             "Lbfgsb.C11.maxStep_feasible", "Lbfgsb.C11.ls_trials_on_ray", "Lbfgsb.C11.dcsrch_steps_in_range",
-            "Lbfgsb.C11.ls_result_in_range", "Lbfgsb.C11.ls_steps_in_range", "Lbfgsb.C11.ls_evals_on_ray", "Lbfgsb.C11.dcsrch_conv_is_wolfe", "Lbfgsb.C11.wolfe_gives_curvature"]
+            "Lbfgsb.C11.ls_result_in_range", "Lbfgsb.C11.ls_steps_in_range", "Lbfgsb.C11.ls_evals_on_ray", "Lbfgsb.C11.dcsrch_conv_is_wolfe", "Lbfgsb.C11.wolfe_gives_curvature", "Lbfgsb.C11.concreteOracles_stepper",
+            "Lbfgsb.C11.concrete_ls_steps_in_range"]
 MODULES = ["LbfgsbVerif.Props.C11"]
 
 
